@@ -154,6 +154,10 @@ pub fn case(idx: u64, seed: u64, p: &Params, o: &mut CaseOut) {
     let only = p.usize("kind", usize::MAX);
     let kind = if only < OPS.len() { only } else { *r.pick(&[0usize, 0, 1, 1, 2, 2, 2, 3, 4, 5]) };
     let order = |r: &mut Rng| -> usize {
+        if max >= 40 && r.below(25) == 0 {
+            // word and double-word boundaries of bitset-style implementations
+            return *r.pick(&[63usize, 64, 65, 127, 128, 129]);
+        }
         match r.below(10) {
             0..=5 => r.range(1, max.min(9)),
             6..=7 => r.range(1, max.min(24)),
